@@ -4,13 +4,15 @@ import json, subprocess
 ALL = ["C%02d" % i for i in range(1, 21)]
 TRUST = ("Trusted base: the VC generator in /verif/engine and go/ssa; assumed (K) contracts of the reflection-driven codec and of "
          "standard-library functions in /verif/contracts/*.spec (each used one is listed in the evidence); A-len, A-sum, A-scratch, "
-         "A-pkginv (package invariants assumed on entry of exported functions); integers are mathematical with overflow obligations.")
+         "A-pkginv (package invariants assumed on entry of exported functions); integers are mathematical with overflow obligations; in-memory pointers into struct fields are modelled only for fields whose address the program takes.")
 TECH = "contract-based deductive verification: SSA->SMT weakest-precondition VCs, discharged by z3/cvc5"
 CLAIMS = {
  "C01": (TECH, "Every function on the v5 Apply path (pointer walk, container primitives, the six operations, the dispatch loop) is verified from its SSA against one-level RFC 6902/6901 contracts: index arithmetic incl. negative indices and '-', member set/replace/remove, move = remove (before the destination is resolved) then add of the same node, copy inserts a fresh duplicate spelled as the output, test treats absent members and stored nulls as null, root replacement only by object/array. Unbounded in document, path and patch size.",
          "Pointer-level (one container at a time): the composition of these member-wise effects over the whole tree to the RFC result is a meta step (containers form a tree without sharing; DESIGN M-tree). Decoder/encoder behaviour is assumed (K1-K5, K11, K12). "),
  "C02": (TECH, "merge, mergeDocs, pruneNulls, pruneDocNulls, pruneAryNulls and doMergePatch are verified from their SSA: every branch of RFC 7396's pseudo-code is pinned to a branch of the code by call-site clauses (null member => remove, new member => stored after pruning, existing member => recursive merge), arrays are left untouched (frame), ill-formed inputs are rejected.",
          "Member-dispatch level: value-level equality with the recursive RFC function is a meta step (M-tree); assumes A-merge-entry (no node holding the text null exists when MergePatch starts), K1, K2, K12. "),
+ "C04": (TECH, "Panic-freedom sweep: every SSA instruction that can panic (nil dereference, index, slice bounds, map write to nil, type assertion, division, explicit panic, make with a negative size) in every function of patch.go, merge.go and errors.go of BOTH the v5 module and the legacy root package, and in every state function of the embedded scanner, is an obligation proved under the function's precondition; every call is checked against the callee's precondition; integer overflow obligations on int/int64 arithmetic. Unbounded in input size and nesting.",
+         "Termination is proved only where a `decreases` clause is given (loops over slices/maps terminate by construction); recursion depth and memory are not modelled. The reflection-driven decoder/encoder bodies (v5/internal/json decode.go, encode.go; encoding/json for the root) are NOT swept: they are assumed not to panic on input their callers validated (K contracts; for v5 the callers' Valid gates are proved under C16's clauses). Exported functions are verified for every patch DecodePatch can return (patchOK) and any non-nil options, as the property states. "),
  "C05": (TECH, "The order clauses of the container contracts (existing key keeps its position, new key is appended, removal keeps the order of the rest), the frame clauses (untouched children, parsed nodes and raw bytes are not written) and TrustMarshalJSON's emission order (members written in keys order, one name/value per key) are verified from the SSA.",
          "Document-order of keys from the decoder and literal-preserving compaction are assumed (K1, K10, K11). "),
  "C06": (TECH, "lazyNode.equal is verified (recursively, against its own contract) for: null equals only null, strings compared by unescaped value, kind mismatches unequal, objects need the same member names with null/non-null agreement, arrays the same length and null/non-null pattern; Equal rejects ill-formed input. No panic on any input.",
@@ -29,6 +31,10 @@ CLAIMS = {
          "The whole-path postcondition (afterwards the parent resolves) is not mechanised; K1, K2, strconv contracts assumed. "),
  "C15": (TECH, "TrustMarshalJSON is verified to write '{', the members in keys order as name ':' value separated by ',', and '}', escaping names and values per the object's options (default escape); RedirectMarshalJSON never reports an unknown node type under the node invariant; ApplyIndent re-indents the marshalled output.",
          "Well-formedness of the encoder's output and of Indent is assumed (K10-K12); the loss of options on objects parsed by a test operation is a known finding candidate not yet covered. "),
+ "C18": (TECH, "Legacy root package: every function on the Apply path of /repo/patch.go (container primitives on map/slice values, lazy parsing, pointer walk, the six operations, the dispatch loop, DecodePatch) is verified from its SSA against one-level RFC 6902/6901 contracts with the v4 dialect: index arithmetic with the SupportNegativeIndices package setting, '-' append, member set/remove, move = remove then add of the same node, copy inserts a fresh duplicate with the same value and accounts its size against AccumulatedCopySizeLimit, failing test / absent remove or move source / out-of-range index are errors of the stated kind with no document. Pointers into struct fields (&n.doc, &n.ary) are modelled exactly (paddr encoding).",
+         "Pointer-level, one container at a time (composition over the tree is the meta step M-tree). encoding/json's Unmarshal/Marshal/Compact at the used instantiations are assumed (KR contracts in contracts/root.spec). replace of an absent object member succeeds in v4 (outside the property's domain of applicable patches). "),
+ "C19": (TECH, "Legacy root package merge.go: merge, mergeDocs, pruneNulls, pruneDocNulls, pruneAryNulls and doMergePatch are verified from their SSA: RFC 7396's branches are pinned by call-site clauses and closed callee lists (null member deletes only when applying, new members are pruned only when applying, existing members are merged recursively with the same mode, arrays are left untouched), ill-formed documents and patches are rejected, no node holding the text null is ever stored; lazyNode.equal treats an absent operand as unequal and leaves already-parsed nodes untouched.",
+         "Member-dispatch level (as C02/C07); CreateMergePatch/getDiff/matchesValue are covered for panic freedom only (their minimality/round-trip laws are not mechanised), and Equal's agreement with structural equality is proved one level at a time only for the null/absent cases. Assumes A-merge-entry and the KR contracts. "),
 }
 NA_REASON = {
  "C17": "reflection-driven codec over arbitrary Go types and relational equivalence with encoding/json are outside what function contracts within reach of an SSA-level VC generator can express (DESIGN.md section 15)",
